@@ -88,7 +88,7 @@ Section Stages.
      handle_pending) of the states as extra premises): the arguments of the shrink / the two unions
      issued by handle_pending are related, and the re-added node denotes its new class *)
   Hypothesis HSh_red : spec_HSh_red_x SC.
-  Hypothesis HC_sim : spec_HC_sim_x SC.
+  Hypothesis HC_sim : spec_HC_sim_y SC KC.
   Hypothesis HD_sim : spec_HD_sim_x SC.
   Hypothesis HS_readd : spec_HS_readd_x SC KC.
 
@@ -338,7 +338,7 @@ Section Final.
     nth_opt (handle_cterms terms ops) i = Some ti -> nth_opt (handle_cterms terms ops) j = Some tj ->
     eg_eq s a b = Ok true -> Deriv (asserted terms ops) 0 ti tj.
   Proof.
-    exact (equality_sound_x _ _ xinv_trivial (spec_HSh_red_weaken _ HSh_red) (spec_HC_sim_weaken _ HC_sim)
+    exact (equality_sound_x _ _ xinv_trivial (spec_HSh_red_weaken _ HSh_red) (spec_HC_sim_y_of_x _ _ (spec_HC_sim_weaken _ HC_sim))
              (spec_HD_sim_weaken _ HD_sim) (spec_HS_readd_weaken _ _ HS_readd)).
   Qed.
 
@@ -348,7 +348,7 @@ Section Final.
     nth_opt (handle_cterms terms ops) i = Some ti -> nth_opt (handle_cterms terms ops) j = Some tj ->
     eg_eq s a b = Ok true -> ti = tj.
   Proof.
-    exact (equality_sound_insertion_only_x _ _ xinv_trivial (spec_HSh_red_weaken _ HSh_red) (spec_HC_sim_weaken _ HC_sim)
+    exact (equality_sound_insertion_only_x _ _ xinv_trivial (spec_HSh_red_weaken _ HSh_red) (spec_HC_sim_y_of_x _ _ (spec_HC_sim_weaken _ HC_sim))
              (spec_HD_sim_weaken _ HD_sim) (spec_HS_readd_weaken _ _ HS_readd)).
   Qed.
 End Final.
